@@ -23,20 +23,20 @@ SRC = "calldata.py"
 OUT = "GenDynRoom.v"
 
 
-def _expr(node, local):
-    """integer expression over the list `sizes` -> Gallina (Z)"""
+def _expr(node, local, var="sizes"):
+    """integer expression over the candidate list (python local `var`) -> Gallina (Z) over `sizes`"""
     if isinstance(node, ast.Constant) and isinstance(node.value, int) and not isinstance(node.value, bool):
         return f"({node.value})" if node.value < 0 else str(node.value)
     if isinstance(node, ast.Name) and node.id in local:
         return local[node.id]
-    if isinstance(node, ast.Call) and isinstance(node.func, ast.Name) and len(node.args) == 1 and not node.keywords and ast.unparse(node.args[0]) == "sizes":
+    if isinstance(node, ast.Call) and isinstance(node.func, ast.Name) and len(node.args) == 1 and not node.keywords and ast.unparse(node.args[0]) == var:
         if node.func.id == "max":
             return "(list_max_z sizes)"
         if node.func.id == "min":
             return "(list_min_z sizes)"
         if node.func.id == "len":
             return "(Z.of_nat (length sizes))"
-    if isinstance(node, ast.Subscript) and ast.unparse(node.value) == "sizes":
+    if isinstance(node, ast.Subscript) and ast.unparse(node.value) == var:
         k = node.slice
         if isinstance(k, ast.UnaryOp) and isinstance(k.op, ast.USub) and isinstance(k.operand, ast.Constant) and isinstance(k.operand.value, int):
             return f"(nth_from_end {k.operand.value} sizes)"
@@ -45,7 +45,7 @@ def _expr(node, local):
     if isinstance(node, ast.BinOp):
         op = {ast.Add: "Z.add", ast.Sub: "Z.sub", ast.Mult: "Z.mul", ast.FloorDiv: "Z.div"}.get(type(node.op))
         if op:
-            return f"({op} {_expr(node.left, local)} {_expr(node.right, local)})"
+            return f"({op} {_expr(node.left, local, var)} {_expr(node.right, local, var)})"
     raise TranslateError(f"Calldata.encode: unsupported size expression {ast.unparse(node)!r}")
 
 
@@ -55,47 +55,61 @@ def translate(src_text):
     gds = find_function(tree, "get_dyn_sizes", cls="Calldata")
     # get_dyn_sizes hands the configured list over unchanged
     src = [ast.unparse(s) for s in gds.body if not (isinstance(s, ast.Expr) and isinstance(s.value, ast.Constant))]
-    want_first = "sizes = self.args.array_lengths.get(name)"
-    if not src or src[0] != want_first or src[-1] != "return (sizes, size_var)":
-        raise TranslateError("get_dyn_sizes: expected `sizes = self.args.array_lengths.get(name)` ... `return (sizes, size_var)`")
-    assigns = [n for n in ast.walk(gds) if isinstance(n, (ast.Assign, ast.AugAssign)) and "sizes" in [ast.unparse(t) for t in (n.targets if isinstance(n, ast.Assign) else [n.target])]]
+    ret = gds.body[-1]
+    if not (isinstance(ret, ast.Return) and isinstance(ret.value, ast.Tuple) and len(ret.value.elts) == 2 and all(isinstance(e, ast.Name) for e in ret.value.elts)):
+        raise TranslateError("get_dyn_sizes: expected `return (<sizes>, <size_var>)`")
+    gv, sv = ret.value.elts[0].id, ret.value.elts[1].id
+    if not src or src[0] != f"{gv} = self.args.array_lengths.get(name)":
+        raise TranslateError(f"get_dyn_sizes: expected `{gv} = self.args.array_lengths.get(name)` first")
+    assigns = [n for n in ast.walk(gds) if isinstance(n, (ast.Assign, ast.AugAssign)) and gv in [ast.unparse(t) for t in (n.targets if isinstance(n, ast.Assign) else [n.target])]]
     for a in assigns:
         v = ast.unparse(a.value)
         if v not in ("self.args.array_lengths.get(name)", "self.args.default_array_lengths if isinstance(typ, DynamicArrayType) else self.args.default_bytes_lengths"):
-            raise TranslateError(f"get_dyn_sizes: the candidate list is transformed: sizes = {v}")
-    if any(isinstance(n, ast.Call) and isinstance(n.func, ast.Attribute) and ast.unparse(n.func.value) == "sizes" for n in ast.walk(gds)):
+            raise TranslateError(f"get_dyn_sizes: the candidate list is transformed: {gv} = {v}")
+    if any(isinstance(n, ast.Call) and isinstance(n.func, ast.Attribute) and ast.unparse(n.func.value) == gv for n in ast.walk(gds)):
         raise TranslateError("get_dyn_sizes: a method is called on the candidate list")
-    if "DynamicParam(name, sizes, size_var, typ)" not in ast.unparse(gds):
+    if f"DynamicParam(name, {gv}, {sv}, typ)" not in ast.unparse(gds):
         raise TranslateError("get_dyn_sizes: the DynamicParam (the candidates the paths branch over) is not built from the same list")
+
+    def dyn_target(st):
+        """`<X>, <V> = self.get_dyn_sizes(name, typ)` -> X"""
+        if (isinstance(st, ast.Assign) and len(st.targets) == 1 and isinstance(st.targets[0], ast.Tuple) and len(st.targets[0].elts) == 2
+                and all(isinstance(e, ast.Name) for e in st.targets[0].elts) and ast.unparse(st.value) == "self.get_dyn_sizes(name, typ)"):
+            return st.targets[0].elts[0].id, st.targets[0].elts[1].id
+        return None
+
     # the two arms of encode
     arr = [st for st in enc.body if isinstance(st, ast.If) and ast.unparse(st.test) == "isinstance(typ, DynamicArrayType)"]
     if len(arr) != 1:
         raise TranslateError("Calldata.encode: the DynamicArrayType arm not found")
     body = arr[0].body
-    GET = ("(sizes, size_var) = self.get_dyn_sizes(name, typ)", "sizes, size_var = self.get_dyn_sizes(name, typ)")
-    if ast.unparse(body[0]) not in GET:
-        raise TranslateError("Calldata.encode: T[] arm does not start with `sizes, size_var = self.get_dyn_sizes(name, typ)`")
+    tv = dyn_target(body[0])
+    if tv is None:
+        raise TranslateError("Calldata.encode: T[] arm does not start with `<sizes>, <size_var> = self.get_dyn_sizes(name, typ)`")
     comp = body[1]
     if not (isinstance(comp, ast.Assign) and isinstance(comp.value, ast.ListComp) and len(comp.value.generators) == 1
             and ast.unparse(comp.value.elt) == "self.encode(f'{name}[{i}]', typ.base)" and not comp.value.generators[0].ifs
             and isinstance(comp.value.generators[0].iter, ast.Call) and ast.unparse(comp.value.generators[0].iter.func) == "range" and len(comp.value.generators[0].iter.args) == 1):
         raise TranslateError("Calldata.encode: T[] arm: expected `items = [self.encode(f\"{name}[{i}]\", typ.base) for i in range(<E>)]`")
-    array_room = _expr(comp.value.generators[0].iter.args[0], {})
+    array_room = _expr(comp.value.generators[0].iter.args[0], {}, tv[0])
     rest = [ast.unparse(s) for s in body[2:]]
-    if rest != ["encoded = self.encode_tuple(items)", "return EncodingResult([size_var] + encoded.data, 32 + encoded.size, False)"]:
+    if rest != ["encoded = self.encode_tuple(items)", f"return EncodingResult([{tv[1]}] + encoded.data, 32 + encoded.size, False)"]:
         raise TranslateError(f"Calldata.encode: T[] arm: unexpected tail {rest}")
     bys = [n for n in ast.walk(enc) if isinstance(n, ast.If) and ast.unparse(n.test) == "typ.typ in ['bytes', 'string']"]
     if len(bys) != 1:
         raise TranslateError("Calldata.encode: the bytes/string arm not found")
     bb = bys[0].body
-    if ast.unparse(bb[0]) not in GET or not (isinstance(bb[1], ast.Assign) and ast.unparse(bb[1].targets[0]) == "size"):
-        raise TranslateError("Calldata.encode: bytes arm: expected `sizes, size_var = ...; size = <E>`")
-    bytes_room = _expr(bb[1].value, {})
-    if not (isinstance(bb[2], ast.Assign) and ast.unparse(bb[2].targets[0]) == "size_pad_right"):
+    bv = dyn_target(bb[0])
+    if bv is None or not (isinstance(bb[1], ast.Assign) and isinstance(bb[1].targets[0], ast.Name)):
+        raise TranslateError("Calldata.encode: bytes arm: expected `<sizes>, <size_var> = ...; <size> = <E>`")
+    sz = bb[1].targets[0].id
+    bytes_room = _expr(bb[1].value, {}, bv[0])
+    if not (isinstance(bb[2], ast.Assign) and isinstance(bb[2].targets[0], ast.Name)):
         raise TranslateError("Calldata.encode: bytes arm: `size_pad_right = ...` expected")
-    padded = _expr(bb[2].value, {"size": "(bytes_room sizes)"})
+    pd = bb[2].targets[0].id
+    padded = _expr(bb[2].value, {sz: "(bytes_room sizes)"}, bv[0])
     tail = [ast.unparse(s) for s in bb[3:]]
-    if tail != ["data = [BitVec(new_symbol, 8 * size_pad_right)] if size > 0 else []", "return EncodingResult([size_var] + data, 32 + size_pad_right, False)"]:
+    if tail != [f"data = [BitVec(new_symbol, 8 * {pd})] if {sz} > 0 else []", f"return EncodingResult([{bv[1]}] + data, 32 + {pd}, False)"]:
         raise TranslateError(f"Calldata.encode: bytes arm: unexpected tail {tail}")
     lines = [
         "(* GENERATED by translate/t_dynroom.py from Calldata.encode / get_dyn_sizes in src/halmos/calldata.py -- do not edit *)",
